@@ -38,7 +38,7 @@ func zzBuf(pb *ParserBuffer, ld, w, bs int) {
 
 func zzArbHash(h *hash, name string, inputLen, hashBits int) {
 	if err := h.init(inputLen, hashBits); err != nil {
-		verifFail("hash.init rejects an accepted configuration")
+		verifFail("hash.init rejects an accepted configuration [C16]")
 		return
 	}
 	for i := range h.table {
@@ -91,7 +91,7 @@ func zzMakeParser(kind, ld, w, bs int) (p Parser, pb *ParserBuffer, minMatch int
 		zzBuf(&s.ParserBuffer, ld, w, bs)
 		cfg := bucketConfig{InputLen: il, HashBits: hb, BucketSize: bsz}
 		if err := s.bucketHash.init(&cfg); err != nil {
-			verifFail("bucketHash.init rejects an accepted configuration")
+			verifFail("bucketHash.init rejects an accepted configuration [C16]")
 		}
 		for i := range s.buckets {
 			s.buckets[i] = bucketEntry{pos: verifU32(verifName("B.pos", i)), val: verifU32(verifName("B.val", i))}
@@ -117,20 +117,20 @@ func zzCheckBlock(tag string, data []byte, w int, off int64, windowSize, blockSi
 	minMatch, maxMatch int, maximal, backward bool, wAfter int) {
 	unparsed := len(data) - w
 	if unparsed == 0 {
-		verifAssert(err == ErrEmptyBuffer, tag+": no data but err != ErrEmptyBuffer")
-		verifAssert(n == 0, tag+": ErrEmptyBuffer with n != 0")
-		verifAssert(len(blk.Sequences) == 0 && len(blk.Literals) == 0, tag+": ErrEmptyBuffer but block not emptied")
-		verifAssert(wAfter == w, tag+": W moved on ErrEmptyBuffer")
+		verifAssert(err == ErrEmptyBuffer, tag+": no data but err != ErrEmptyBuffer [C03]")
+		verifAssert(n == 0, tag+": ErrEmptyBuffer with n != 0 [C03]")
+		verifAssert(len(blk.Sequences) == 0 && len(blk.Literals) == 0, tag+": ErrEmptyBuffer but block not emptied [C03]")
+		verifAssert(wAfter == w, tag+": W moved on ErrEmptyBuffer [C03]")
 		return
 	}
-	verifAssert(err == nil, tag+": error although data is buffered")
+	verifAssert(err == nil, tag+": error although data is buffered [C03,C16]")
 	nn := verifConc(n)
 	blockEnd := w + blockSize
 	if unparsed < blockSize {
 		blockEnd = w + unparsed
 	}
-	verifAssert(1 <= nn && w+nn <= blockEnd, tag+": n outside 1..min(BlockSize, unparsed)")
-	verifAssert(wAfter == w+nn, tag+": W not advanced by n")
+	verifAssert(1 <= nn && w+nn <= blockEnd, tag+": n outside 1..min(BlockSize, unparsed) [C03]")
+	verifAssert(wAfter == w+nn, tag+": W not advanced by n [C03]")
 	if nn < 1 || w+nn > blockEnd {
 		return
 	}
@@ -144,7 +144,7 @@ func zzCheckBlock(tag string, data []byte, w int, off int64, windowSize, blockSi
 		ll := verifConc(int(s.LitLen))
 		mm := verifConc(int(s.MatchLen))
 		oo := int(s.Offset)
-		verifAssert(ll <= len(blk.Literals)-lc, tag+": LitLen claims more literals than the block carries")
+		verifAssert(ll <= len(blk.Literals)-lc, tag+": LitLen claims more literals than the block carries [C02]")
 		if ll > len(blk.Literals)-lc {
 			return
 		}
@@ -160,8 +160,8 @@ func zzCheckBlock(tag string, data []byte, w int, off int64, windowSize, blockSi
 		}
 		wf = verifAnd(wf, s.Aux == 0)
 		// the match source must lie in the buffered data for the parser to know it
-		verifAssertNow(verifAnd(oo >= 1, oo <= q), tag+": match source outside the buffered data")
-		verifAssert(q+mm <= blockEnd, tag+": match runs past the block end")
+		verifAssertNow(verifAnd(oo >= 1, oo <= q), tag+": match source outside the buffered data [C01,C02]")
+		verifAssert(q+mm <= blockEnd, tag+": match runs past the block end [C01,C03]")
 		if q+mm > blockEnd {
 			return
 		}
@@ -176,16 +176,16 @@ func zzCheckBlock(tag string, data []byte, w int, off int64, windowSize, blockSi
 			mx = verifAnd(mx, verifOr(q-1-oo < 0, data[q-1] != data[verifIteInt(q-1-oo < 0, 0, q-1-oo)]))
 		}
 	}
-	verifAssert(wf, tag+": sequence not well-formed (Offset/MatchLen/Aux range)")
+	verifAssert(wf, tag+": sequence not well-formed (Offset/MatchLen/Aux range) [C02]")
 	if flags&NoTrailingLiterals != 0 && len(blk.Sequences) > 0 {
-		verifAssert(lc == len(blk.Literals), tag+": NoTrailingLiterals but the block carries trailing literals")
+		verifAssert(lc == len(blk.Literals), tag+": NoTrailingLiterals but the block carries trailing literals [C03]")
 	} else {
 		g = append(g, blk.Literals[lc:]...)
 		if flags == 0 {
-			verifAssert(int64(nn) == blk.Len(), tag+": n != Block.Len()")
+			verifAssert(int64(nn) == blk.Len(), tag+": n != Block.Len() [C03]")
 		}
 	}
-	verifAssert(len(g) == w+nn, tag+": block does not represent n bytes")
+	verifAssert(len(g) == w+nn, tag+": block does not represent n bytes [C01,C03]")
 	if len(g) != w+nn {
 		return
 	}
@@ -193,8 +193,8 @@ func zzCheckBlock(tag string, data []byte, w int, off int64, windowSize, blockSi
 	for i := w; i < w+nn; i++ {
 		ok = verifAnd(ok, g[i] == data[i])
 	}
-	verifAssert(ok, tag+": expansion differs from the input bytes")
-	verifAssert(mx, tag+": match is not maximal")
+	verifAssert(ok, tag+": expansion differs from the input bytes [C01]")
+	verifAssert(mx, tag+": match is not maximal [C19]")
 }
 
 // zzParseIS runs one Parse(&blk, flags) on parser `kind` in an arbitrary state.
@@ -216,8 +216,8 @@ func zzParseIS(kind int, backward bool) {
 	for i := 0; i < ld && i < len(pb.Data); i++ {
 		same = verifAnd(same, pb.Data[i] == data[i])
 	}
-	verifAssert(same, "Parse modified the buffered data")
-	verifAssert(pb.Off == off, "Parse changed Off")
+	verifAssert(same, "Parse modified the buffered data [C01,C15]")
+	verifAssert(pb.Off == off, "Parse changed Off [C01,C15]")
 	zzCheckBlock("Parse", data, w, off, ws, bs, &blk, n, err, flags, minMatch, 0, true, backward, pb.W)
 	if len(blk.Sequences) > 0 {
 		verifReach("match")
@@ -247,13 +247,13 @@ func zzParseNilIS(kind int, backward bool) {
 		want = bs
 	}
 	if want == 0 {
-		verifAssert(err == ErrEmptyBuffer, "Parse(nil): no data but err != ErrEmptyBuffer")
-		verifAssert(n == 0, "Parse(nil): ErrEmptyBuffer with n != 0")
+		verifAssert(err == ErrEmptyBuffer, "Parse(nil): no data but err != ErrEmptyBuffer [C14]")
+		verifAssert(n == 0, "Parse(nil): ErrEmptyBuffer with n != 0 [C14]")
 	} else {
-		verifAssert(err == nil, "Parse(nil): error although data is buffered")
-		verifAssert(n == want, "Parse(nil): n != min(BlockSize, unparsed)")
+		verifAssert(err == nil, "Parse(nil): error although data is buffered [C14]")
+		verifAssert(n == want, "Parse(nil): n != min(BlockSize, unparsed) [C14]")
 	}
-	verifAssert(pb.W == w+want, "Parse(nil): W not advanced by n")
+	verifAssert(pb.W == w+want, "Parse(nil): W not advanced by n [C14]")
 	w2 := verifConc(pb.W)
 	if w2 != w+want {
 		return
@@ -261,7 +261,7 @@ func zzParseNilIS(kind int, backward bool) {
 	// the next block: correct for a decoder holding data[:w2] verbatim
 	var blk Block
 	n2, err2 := p.Parse(&blk, 0)
-	zzCheckBlock("Parse after Parse(nil)", data, w2, off, ws, bs, &blk, n2, err2, 0, minMatch, 0, true, backward, pb.W)
+	zzCheckBlock("Parse after Parse(nil) [C14]", data, w2, off, ws, bs, &blk, n2, err2, 0, minMatch, 0, true, backward, pb.W)
 	if len(blk.Sequences) > 0 && int(blk.Sequences[0].LitLen) == 0 {
 		verifReach("match-after-skip")
 	}
